@@ -341,6 +341,10 @@ class Program:
                 continue
             if m:
                 sh, tr = self.src.impl_at(m.group(1), int(m.group(2)), int(m.group(3)), int(m.group(4)), int(m.group(5)))
+                if tr == 'From':
+                    # several From impls for one type: keyed by the argument type as well
+                    at = type_head_name(b.args[0][1]) if b.args else '?'
+                    self.methods[(sh, 'From<%s>' % at, m.group(6))] = b
                 self.methods[(sh, tr, m.group(6))] = b
             else:
                 self.free[name] = b
@@ -995,6 +999,12 @@ class Engine:
                     raise Unsupported('Self call without context: %s' % callee)
                 st = fr.self_ty
                 sh = type_head_name(st)
+            if tr == 'From':
+                mt = re.search(r' as (?:core::convert::)?From<(.*)>>::', callee)
+                if mt:
+                    b = P.methods.get((sh, 'From<%s>' % type_head_name(mt.group(1)), meth))
+                    if b is not None:
+                        return b, st
             b = P.methods.get((sh, tr, meth))
             if b is not None:
                 return b, st
@@ -1084,6 +1094,15 @@ class Engine:
             v = self.read(ptr)
             self.drop_T(v)
             return
+        if re.match(r'^[A-Z][A-Za-z0-9]{0,2}$', ty):
+            # another generic parameter (e.g. `A: Allocator`): decided by the runtime value
+            v = self.read(ptr)
+            if isinstance(v, Agg) and v.name in ('Global', 'PhantomData') or isinstance(v, (int, bool, Ptr)):
+                return
+            if isinstance(v, TVal):
+                self.drop_T(v)
+                return
+            raise Unsupported('drop glue for generic parameter %s holding %r' % (ty, v))
         if hs == 'Rc' and ('rc::Rc' in h or h == 'Rc'):
             b = self.P.methods.get(('Rc', 'Drop', 'drop'))
             if b is None:
